@@ -454,18 +454,39 @@ func TestVerifC04Exempt(t *testing.T) {
 			} else {
 				req.Header.Set("Upgrade", rapid.SampledFrom([]string{"h2c", "TLS/1.0", "web"}).Draw(t, "upgrade"))
 			}
+			// schedule-free: the handler stays blocked on a gate that is opened only after the wrapper has
+			// returned, so "the handler finished just as the timeout fired" cannot happen; a wrapper that
+			// (wrongly) exempts the request waits for the handler and trips the 10 s watchdog instead
 			var has bool
 			rr := httptest.NewRecorder()
-			handler.TimeoutHandler(20*time.Millisecond)(http.HandlerFunc(func(w http.ResponseWriter, r *http.Request) {
-				_, has = r.Context().Deadline()
-				w.Write([]byte("early"))
-				select {
-				case <-r.Context().Done():
-				case <-time.After(300 * time.Millisecond): // only reached if the request was (wrongly) exempt
-				}
-			})).ServeHTTP(rr, req)
-			if !has || rr.Code != http.StatusServiceUnavailable || rr.Body.String() != "Request Timeout" {
-				t.Fatalf("request with headers %v was treated as exempt: deadline in handler=%v, answer %d %q", req.Header, has, rr.Code, rr.Body.String())
+			gate := make(chan struct{})
+			started := make(chan struct{})
+			served := make(chan struct{})
+			go func() {
+				defer close(served)
+				handler.TimeoutHandler(20*time.Millisecond)(http.HandlerFunc(func(w http.ResponseWriter, r *http.Request) {
+					_, has = r.Context().Deadline()
+					w.Write([]byte("early"))
+					close(started)
+					<-gate
+				})).ServeHTTP(rr, req)
+			}()
+			exempt := false
+			select {
+			case <-served:
+			case <-time.After(10 * time.Second):
+				exempt = true
+			}
+			close(gate)
+			<-served
+			select {
+			case <-started: // also orders the handler's write of `has` before the read below
+			case <-time.After(10 * time.Second):
+				st.Note("nearMiss: handler goroutine did not start within 10 s (inconclusive)")
+				return
+			}
+			if exempt || !has || rr.Code != http.StatusServiceUnavailable || rr.Body.String() != "Request Timeout" {
+				t.Fatalf("request with headers %v was treated as exempt: wrapper waited for the handler=%v, deadline in handler=%v, answer %d %q", req.Header, exempt, has, rr.Code, rr.Body.String())
 			}
 			st.NonTrivial("nearMiss" + fmt.Sprint(req.Header))
 			return
